@@ -124,8 +124,8 @@ def rank(v, rs):
 @contract("coverpoint_bin_collection.mk_collection", ["C10", "C19"],
           ["vsc.model.coverpoint_bin_collection_model.CoverpointBinCollectionModel.mk_collection"], shapes_mk,
           max_paths=60000,
-          note="mk_collection: input ascending disjoint; shapes up to 3 ranges x requested bin counts 1..6; "
-               "int(N/n) is floor(N/n) (exact below 2**53)")
+          note="mk_collection: input ascending disjoint; shapes up to 3 ranges x requested bin counts 1..6 (the bin size is "
+               "the integer quotient N // n, endpoints unbounded)")
 def c_mk_collection(c, k, n):
     from vsc.model.coverpoint_bin_collection_model import CoverpointBinCollectionModel
     from vsc.model.rangelist_model import RangelistModel
